@@ -240,6 +240,12 @@ def readFromStream(substrate, size=-1, context=None):
             raise error.PyAsn1Error(
                 'Read size %s is beyond what a stream can hold' % (size,))
 
+        except MemoryError:
+            # File objects allocate the whole read buffer up front. What
+            # cannot even be buffered is not there either: take what there
+            # is, so it is handled like the same octets in memory.
+            received = substrate.read(io.DEFAULT_BUFFER_SIZE)
+
         if received is None:  # non-blocking stream can do this
             yield error.SubstrateUnderrunError(context=context)
 
